@@ -66,7 +66,7 @@ def time_value_wrapper(f):
                 return a_timevalue
         if a_timevalue is None:
             a_timevalue = 0
-        elif a_timevalue < 0:
+        elif a_timevalue < 0 or a_timevalue >= DATE_MAX_INT:
             return NUM_ERROR
         return f(a_timevalue)
     return wrapped
@@ -407,6 +407,9 @@ def date(year, month_, day):
     if not (0 <= year <= 9999):
         return NUM_ERROR
 
+    # fractions are truncated
+    year, month_ = int(year), int(month_)
+
     if year < 1900:
         year += 1900
 
@@ -511,6 +514,8 @@ def months_inc(start_date, months, eomonth=False):
         return VALUE_ERROR
     if not (0 <= start_date < DATE_MAX_INT):
         return NUM_ERROR
+    # the time of day and a fraction of a month are dropped
+    start_date, months = math.floor(start_date), int(months)
     y, m, d = date_from_int(start_date)
     if eomonth:
         result = date(y, m + months, 1)
